@@ -1,10 +1,12 @@
-"""C12 (see DESIGN.md section 6)."""
+"""C12 -- sequence inputs produce exactly the specified residue graph (see DESIGN.md section 6 and 11)."""
 from vlib.framework import PUnit, LUnit, BUnit
 from bounded import b_seq as B
+from contracts import sequences as S
 
-P_UNITS = []
+P_UNITS = [PUnit("seq-option-linear-chain", S.CONTRACTS, S.REG),
+           LUnit("prefix-sum-monotone", S.lemma_ps_monotone)]
 
 
 def build(tier, seed):
     units = list(P_UNITS) + [u for u in B.UNITS if u.name in "c12-sequence-inputs".split()]
-    return {"units": units, "level": "other", "notes": "bounded stand-in (executable contracts on the real functions); see evidence units"}
+    return {"units": units, "level": "other", "notes": "pyvc contract on the -seq route + bounded stand-in for the file formats and gen_seq"}
